@@ -1837,7 +1837,12 @@ def setitem_array(out_name, array, indices, value):
         zip(array_common_shape, value_common_shape, implied_shape_positions[offset:])
     ):
         index = indices[j]
-        if is_dask_collection(index) and index.dtype == bool:
+        if b == 1:
+            # A value dimension of size 1 is broadcast, whatever the index
+            # (also a dask boolean index, whose number of True elements is
+            # not known here)
+            base_value_indices.append(slice(None))
+        elif is_dask_collection(index) and index.dtype == bool:
             if math.isnan(b) or b <= index.size:
                 base_value_indices.append(None)
                 non_broadcast_dimensions.append(i)
@@ -1847,11 +1852,6 @@ def setitem_array(out_name, array, indices, value):
                     "greater then corresponding boolean index size of "
                     f"{index.size}"
                 )
-
-            continue
-
-        if b == 1:
-            base_value_indices.append(slice(None))
         elif a == b:
             base_value_indices.append(None)
             non_broadcast_dimensions.append(i)
